@@ -3,8 +3,8 @@ CONSTANTS
   NVB = 2
   InitLog <- EmptyLog
   MaxSeq = 1
-  Keys = {"user", "conn"}
-  Kinds = {"mut", "del"}
+  Keys = {"user"}
+  Kinds = {"mut"}
   OldEvents = FALSE
   BadEvents = FALSE
   FoUuid <- Fo10
@@ -13,8 +13,8 @@ CONSTANTS
   MaxCrash = 0
   MaxAcks = 1
   MaxGen = 4
-  MaxNotify = 1
-  MaxEnds = 0
+  MaxNotify = 0
+  MaxEnds = 1
   MaxFail = 0
   AutoReset = "earliest"
   Finite = FALSE
